@@ -129,6 +129,10 @@ WRAPS = {"crlf": lambda t: t + "\r\n", "blank-before": lambda t: "\n" + t + "\n"
          "label-after": lambda t: t + "\nend:\n", "comment-after": lambda t: t + "\n;bye\n", "no-newline": lambda t: t}
 
 
+COMMENTS = ["", " x:", ":", " note: done", " section .text", " global f", "section", " [rax]", " mov rax, 1", "; again", " %define x", " 0x10",
+            "\t", " ends with comma,", " label:  ", " \"quoted\"", " -", " the following:\t", " a ; b : c", " :start"]
+
+
 def base_lines(tier):
     seen = {}
     gens = [g() for _, g in c01.BLOCKS] + [c03.cases_alu("quick", 0), c03.cases_shift("quick", 0), c03.cases_imul_push("quick", 0),
@@ -228,7 +232,7 @@ def run(tier, seed):
     rep.bounds["base_lines"] = len(lines)
     rep.rule = ("base lines = one line per (mnemonic, form, operand-class pattern) of the C01-C05 corpora that assembles; "
                 "rewritings: upper-case mnemonic / registers+keywords / hex digits and 0X, blanks around commas, blanks inside "
-                "brackets, indentation (spaces, tab), trailing blanks, trailing ; comment, decimal<->hex, leading zeros, CRLF, and "
+                "brackets, indentation (spaces, tab), trailing blanks, trailing ; comment (and 20 comment contents made of characters that mean something outside a comment), decimal<->hex, leading zeros, CRLF, and "
                 "blank / comment / label / section / global lines before and after; quick: each alone, all pairs, all together; "
                 "thorough: all 2^10 combinations; oracle: return value, offset and bytes equal those of the base spelling under "
                 "the same options (mov r64, imm lines only in NASM and STRICT mov-immediate modes). distinct_nontrivial = base "
@@ -243,6 +247,19 @@ def run(tier, seed):
 
     run_variants(rep, lines, singles, "single")
     rep.bounds["single_rewritings"] = len(SWITCHES) + len(EXTRA) + len(WRAPS) + 1
+
+    # what a comment may contain: the characters and words that mean something OUTSIDE a comment (label colon, directive
+    # names, brackets, a second semicolon, macro sign, an instruction, a trailing comma), at the start, in the middle and
+    # at the very end of the comment, after LF and CRLF
+    def commentv(text):
+        out = []
+        for k, c in enumerate(COMMENTS):
+            out.append(("comment-content:%d" % k, text + " ;" + c + "\n"))
+            out.append(("comment-content-tight:%d" % k, text + ";" + c + "\r\n"))
+        return out
+    if not rep.expired():
+        run_variants(rep, lines if tier == "thorough" else lines[::4], commentv, "comment-content")
+        rep.bounds["comment_contents"] = len(COMMENTS)
     pairs = list(itertools.combinations(names, 2))
 
     def pairv(text):
